@@ -173,8 +173,8 @@ pub fn property() -> Property {
                count or length exactly at a varint boundary, or witness on only one side; distinct by encoding.",
         assumptions: &["reference encoder anchored on the repository vectors"],
         subs: vec![
-            Sub { name: "tx_sizes", kind: Kind::Tape { max_len: 3000, quick: 60_000, thorough: 1_500_000, f: tx_sizes } },
-            Sub { name: "blocks", kind: Kind::Tape { max_len: 3000, quick: 15_000, thorough: 300_000, f: blocks } },
+            Sub { name: "tx_sizes", kind: Kind::Tape { max_len: 3000, quick: 720_000, thorough: 6_000_000, f: tx_sizes } },
+            Sub { name: "blocks", kind: Kind::Tape { max_len: 3000, quick: 180_000, thorough: 1_200_000, f: blocks } },
         ],
         known: vec![],
     }
